@@ -145,3 +145,203 @@ def fisher_region_contract(finite_like=True):
                  raises=lambda S, a, e: z3.BoolVal(False))
     c.region_name = "snapping and code length"
     return c
+
+
+# ---------------------------------------------------------------------- test_all_Fisher.main: one row per function (C07, C14)
+def _main_rows_region(fnode):
+    """allocation of the three per-rank tables + the body of the loop over this rank's functions"""
+    pre, body = [], None
+    for s in fnode.body:
+        if isinstance(s, ast.Assign) and len(s.targets) == 1 and isinstance(s.targets[0], ast.Name) and s.targets[0].id in ("codelen", "params", "deriv"):
+            pre.append(s)
+        if isinstance(s, ast.For) and any(isinstance(n, ast.Call) and getattr(n.func, "id", None) == "convert_params" for n in ast.walk(s)):
+            body = s.body
+            break
+    if len(pre) != 3 or body is None:
+        return None
+    return pre + body
+
+
+def main_rows_contract(variant):
+    """Row i of the per-rank tables after iteration i (variant: what the opaque calls do).
+      ok          run_sympify and convert_params return: row i of params / deriv and entry i of negloglike / codelen are the four
+                  results of ONE call of convert_params for function i; the Hessian row has max_param (max_param + 1) / 2 entries
+      nameerror   run_sympify raises NameError (try_integration False): the row is zeros, code length 0
+      exception   any other exception: likewise
+    A NaN or infinite likelihood is skipped with a NaN code length.  Rows other than i are not touched."""
+    from pyvc.models import PyRaise
+    NP, M = z3.Int("NP"), z3.Int("max_param")
+    CPp = z3.Function("CP.params", z3.IntSort(), z3.IntSort(), z3.RealSort())
+    CPd = z3.Function("CP.deriv", z3.IntSort(), z3.IntSort(), z3.RealSort())
+    CPn = z3.Function("CP.nll", z3.IntSort(), z3.RealSort())
+    CPc = z3.Function("CP.codelen", z3.IntSort(), z3.RealSort())
+    CPcn = z3.Function("CP.codelen.nan", z3.IntSort(), z3.BoolSort())
+
+    def mk_like(eng, st):
+        return st.alloc(HObj_("Likelihood", {}))
+
+    def mk_nll(eng, st):
+        v = eng.fresh(T.arr(T.float), "negloglike", st)
+        st.heap[v.addr].len = NP
+        st.ghost["nll0"] = st.heap[v.addr]
+        return v
+
+    def mk_pp(eng, st):
+        v = eng.fresh(T.arr2(T.real), "params_proc", st)
+        st.heap[v.addr].rows, st.heap[v.addr].cols = NP, M
+        return v
+
+    def mk_fl(eng, st):
+        v = eng.fresh(T.list(T.label), "fcn_list_proc", st)
+        st.heap[v.addr].len = NP
+        return v
+
+    def run_sympify_contract():
+        def returns(eng, st, a):
+            if variant == "nameerror":
+                raise PyRaise("NameError")
+            if variant == "exception":
+                raise PyRaise("Exception")
+            return VTuple([eng.fresh(T.label, "fcn", st), eng.fresh(T.fn, "eq", st), VConc_("integrated")])
+        return Contract("Likelihood.run_sympify", {"self": T.fn, "fcn_i": T.label, "tmax": (T.int, VInt(5)), "try_integration": (T.bool, VFloat(0))},
+                        returns=returns, raises=lambda S, a, e: z3.BoolVal(True))
+
+    def convert_params_contract():
+        def returns(eng, st, a):
+            i = st.env["i"].t
+            p = st.alloc(HSeq(M, lambda c: VFloat(CPp(i, c)), numpy=True, etype=T.real))
+            d = st.alloc(HSeq(M * (M + 1) / 2, lambda c: VFloat(CPd(i, c)), numpy=True, etype=T.real))
+            return VTuple([p, VFloat(CPn(i)), d, VFloat(CPc(i), nan=CPcn(i))])
+
+        def requires(S, a):
+            th = S.seq(a["theta_ML"])
+            return [("theta_ML is the row of fitted parameters of function i (max_param entries)", th.len == M),
+                    ("max_param passed on is the number of parameter columns", a["max_param"].t == M)]
+        return Contract("convert_params", {"fcn_i": T.label, "eq": T.fn, "integrated": T.fn, "theta_ML": T.arr(T.real), "likelihood": T.fn, "negloglike": T.float,
+                                           "max_param": (T.int, VInt(4)), "use_relative_dx": (T.bool, VFloat(0))}, requires=requires, returns=returns)
+
+    def setup(eng, st, args):
+        eng.contracts["Likelihood.run_sympify"] = run_sympify_contract()
+        eng.contracts["convert_params"] = convert_params_contract()
+        st.env["rank"] = VInt(z3.Int("rank"))
+        st.env["max_param"] = VInt(M)
+        eng.axioms.append((M * (M + 1)) % 2 == 0)         # lemma library: m (m + 1) is even (proved by induction)
+        st.env["tmax"] = VInt(5)
+        st.env["print_frequency"] = VInt(z3.Int("print_frequency"))
+        st.env["try_integration"] = __import__("pyvc.values", fromlist=["VBool"]).VBool(False)
+
+    def requires(S, a):
+        return [("sizes", z3.And(NP >= 1, M >= 1, 0 <= a["i"].t, a["i"].t < NP, z3.Int("print_frequency") >= 1))]
+
+    def ensures(S, a, res):
+        st = S.st
+        i = a["i"].t
+        out = []
+        for nm in ("params", "deriv", "codelen"):
+            if nm not in st.env:
+                return [("the three per-rank tables are allocated", z3.BoolVal(False))]
+        P, D, C = st.heap[S.var("params").addr], st.heap[S.var("deriv").addr], st.heap[S.var("codelen").addr]
+        NL = st.heap[a["negloglike"].addr]
+        nll0 = st.ghost["nll0"]
+        out.append(("the tables have one row per function of this rank; max_param parameter columns; max_param (max_param + 1) / 2 Hessian columns",
+                    z3.And(P.rows == NP, P.cols == M, D.rows == NP, 2 * D.cols == M * (M + 1), C.len == NP)))
+        r, c = z3.Int(fresh_name("r!sk")), z3.Int(fresh_name("c!sk"))
+        other = z3.And(0 <= r, r < NP, r != i)
+        out.append(("rows other than i are untouched (still zero) and their likelihood entries unchanged",
+                    z3.Implies(z3.And(other, 0 <= c), z3.And(z3.Implies(c < M, as_float(P.get(r, c)).val == 0), z3.Implies(c < D.cols, as_float(D.get(r, c)).val == 0),
+                                                           as_float(C.get(r)).val == 0, z3.Not(as_float(C.get(r)).nan), fsame(NL.get(r), nll0.get(r))))))
+        bad = z3.Or(nll0.get(i).nan, nll0.get(i).inf)
+        ci = as_float(C.get(i))
+        out.append(("a NaN or infinite likelihood is skipped with a NaN code length", z3.Implies(bad, ci.nan)))
+        cin = z3.And(0 <= c)
+        if variant == "ok":
+            out.append(("row i holds the four results of one call of convert_params for function i",
+                        z3.Implies(z3.Not(bad), z3.And(z3.Implies(z3.And(cin, c < M), as_float(P.get(i, c)).val == CPp(i, c)),
+                                                       z3.Implies(z3.And(cin, c < D.cols), as_float(D.get(i, c)).val == CPd(i, c)),
+                                                       as_float(NL.get(i)).val == CPn(i), ci.nan == CPcn(i), z3.Implies(z3.Not(ci.nan), ci.val == CPc(i))))))
+        else:
+            out.append(("a function that cannot be evaluated gets a zero row and code length 0; its likelihood entry is kept",
+                        z3.Implies(z3.Not(bad), z3.And(z3.Implies(z3.And(cin, c < M), as_float(P.get(i, c)).val == 0), z3.Implies(z3.And(cin, c < D.cols), as_float(D.get(i, c)).val == 0),
+                                                       ci.is_fin(), ci.val == 0, fsame(NL.get(i), nll0.get(i))))))
+        return out
+
+    c = Contract("main", {"fcn_list_proc": mk_fl, "negloglike": mk_nll, "params_proc": mk_pp, "likelihood": mk_like, "i": T.int},
+                 requires=requires, ensures=ensures, setup=setup, region=_main_rows_region, raises=lambda S, a, e: z3.BoolVal(False))
+    c.region_name = "rows: one table row per function (%s)" % variant
+    return c
+
+
+from pyvc.values import HObj as HObj_, VConc as VConc_      # noqa: E402
+
+
+# ------------------------------------------------------------ layout of the flattened Hessian: writer (C05, C07)
+def _writer_loops(fnode):
+    out = []
+    for n in ast.walk(fnode):
+        if isinstance(n, ast.For) and any(isinstance(b, ast.Assign) and isinstance(b.targets[0], ast.Subscript) and getattr(b.targets[0].value, "id", None) == "deriv"
+                                          and isinstance(b.targets[0].slice, ast.Slice) for b in n.body):
+            out.append(n)
+    return sorted(out, key=lambda n: n.lineno)
+
+
+def hessian_writer_contract(which=0):
+    """The loop that flattens the upper triangle of the Hessian into `deriv` (which = 0: the first copy of the loop, from Hmat;
+    1, 2: the copies after the step-size retry, from Hmat_array_f[mode_ind]):
+        deriv[TRIST(max_param, r) + (c - r)] = H[r, c]   for 0 <= r <= c < nparam,    TRIST(M, r) = r M - (r - 1) r / 2,
+    and entries outside these slots are not touched."""
+    from pyvc.engine import LoopSpec
+    from pyvc.lemmas import TRIST, trist_axioms
+    from pyvc.values import H2D
+    NPAR, M = z3.Int("nparam"), z3.Int("max_param")
+    HF = z3.Function("Hess", z3.IntSort(), z3.IntSort(), z3.RealSort())
+
+    def region(fnode):
+        loops = _writer_loops(fnode)
+        return [loops[which]] if which < len(loops) else None
+
+    def mk_H(eng, st):
+        return st.alloc(H2D(NPAR, NPAR, lambda r, c: VFloat(HF(r, c)), etype=T.real))
+
+    def mk_Hlist(eng, st):
+        h = mk_H(eng, st)
+        return st.alloc(HSeq(z3.Int("nmat"), lambda k: h))
+
+    def mk_deriv(eng, st):
+        v = eng.fresh(T.arr(T.float), "deriv", st)
+        st.heap[v.addr].len = M * (M + 1) / 2
+        st.ghost["deriv0"] = st.heap[v.addr]
+        return v
+
+    def setup(eng, st, args):
+        eng.axioms.extend(trist_axioms(M))
+        eng.axioms.append((M * (M + 1)) % 2 == 0)
+        st.env["nparam"], st.env["max_param"] = VInt(NPAR), VInt(M)
+
+    def filled(S, upto):
+        d = S.seq(S.var("deriv"))
+        d0 = S.st.ghost["deriv0"]
+        r, c, q = z3.Int("r!w"), z3.Int("c!w"), z3.Int("q!w")
+        return z3.And(d.len == M * (M + 1) / 2,
+                      z3.ForAll([r, c], z3.Implies(z3.And(0 <= r, r < upto, r <= c, c < NPAR), z3.And(as_float(d.get(TRIST(M, r) + c - r)).is_fin(),
+                                                                                                   as_float(d.get(TRIST(M, r) + c - r)).val == HF(r, c)))),
+                      z3.ForAll([q], z3.Implies(z3.And(TRIST(M, upto) <= q, q < d.len), fsame(d.get(q), d0.get(q)))))
+
+    def inv(S, st):
+        return [("rows 0..i-1 of the upper triangle are in their slots, later slots untouched", filled(S, S.i(S.var("__i"))))]
+
+    def requires(S, a):
+        return [("1 <= nparam <= max_param", z3.And(1 <= NPAR, NPAR <= M))] + ([("mode_ind selects a matrix", z3.And(0 <= a["mode_ind"].t, a["mode_ind"].t < z3.Int("nmat")))] if which else [])
+
+    def ensures(S, a, res):
+        return [("deriv[TRIST(max_param, r) + c - r] = H[r, c] for every r <= c < nparam (row-major upper triangle of a max_param x max_param matrix)", filled(S, NPAR))]
+
+    params = {"deriv": mk_deriv}
+    if which == 0:
+        params["Hmat"] = mk_H
+    else:
+        params["Hmat_array_f"] = mk_Hlist
+        params["mode_ind"] = T.int
+    c = Contract("convert_params", params, requires=requires, ensures=ensures, setup=setup, region=region, raises=lambda S, a, e: z3.BoolVal(False))
+    c.region_name = "Hessian layout writer #%d" % which
+    c.loop_select = lambda node: LoopSpec(inv)
+    return c
